@@ -63,6 +63,20 @@ CHECKS = {
         "arccos near +-1 is compared at 3e-8); np.linalg.inv is modelled by Gauss-Jordan and compared, not verified; the "
         "barycentric theorems are being added incrementally (see evidence.theorems for what is proved in this run).",
         "5/C16"),
+    "C05": (
+        "Lean 4 proof (arithmetic induction on the batch plan; separability over Finset sums) + exhaustive (n, batch size) grid against the hooked code",
+        "Theorems in lean/Dreye/Props/C05.lean prove for all n and all batch sizes >= 1 (dividing, not dividing, larger than n) "
+        "that the rows written by the batched loop are exactly 0..n-1 in order, that every solve is written to a slice that "
+        "fits (full batches bs rows, the padded batch n mod bs rows), that row i comes from block i mod bs of solve i div bs, "
+        "and that a stacked problem whose objective is a sum over blocks over a product set is minimised iff every block "
+        "minimises its own row problem. Every run compares, for the whole grid n x batch size x {gaussian, poisson, "
+        "excitation, variance minimisation}, the hook-recorded (batch idx, padded, rows) sequence literally with the model's "
+        "plan, every result with the batch-size-1 result, joint fits with row-by-row fits under per-sample weights, and "
+        "permuted/duplicated/dropped/appended rows.",
+        "Trusted: Lean kernel; cvxpy/solvers are engines (results compared between batch sizes at solver accuracy: 2e-4 "
+        "gaussian/variance, 1e-2 poisson, 1e-4 excitation units); that the stacked cvxpy objective is the block sum is "
+        "argued in DESIGN.md and checked by the result comparison, not proved; hooks record the scatter.",
+        "5/C05"),
 }
 
 NOT_YET = "check not built yet in this round of work (planned in DESIGN.md section 5); no claim is made"
@@ -112,7 +126,7 @@ def main():
     print("MANIFEST.json: %d checks, %d not claimed" % (len(checks), len(man["not_applicable"])))
 
 
-HOOK_COMMITS = []
+HOOK_COMMITS = ['2c6c02d', '4ac3a8f', '6f901f5']
 
 if __name__ == "__main__":
     main()
